@@ -17,6 +17,7 @@ from .core import common
 from .core.common import Collector, HarnessError, VERIF, say
 
 EVIDENCE_SCHEMA = "/root/.vp/EVIDENCE.schema.json"
+OUT = os.environ.get("VERIF_OUT") or VERIF        # mutant self-tests redirect evidence/replays away from /verif
 
 
 def load_known():
@@ -69,8 +70,8 @@ def write_evidence(pid, mod, tier, seed, col, extra, wall, n_viol):
             jsonschema.validate(ev, schema)
     except ImportError:
         pass
-    os.makedirs(os.path.join(VERIF, "evidence"), exist_ok=True)
-    path = os.path.join(VERIF, "evidence", pid + ".json")
+    os.makedirs(os.path.join(OUT, "evidence"), exist_ok=True)
+    path = os.path.join(OUT, "evidence", pid + ".json")
     tmp = path + ".tmp"
     with open(tmp, "w") as f:
         json.dump(ev, f, indent=1, sort_keys=True)
@@ -80,7 +81,7 @@ def write_evidence(pid, mod, tier, seed, col, extra, wall, n_viol):
 
 
 def write_replay(pid, v, tier, seed):
-    d = os.path.join(VERIF, "replays", pid)
+    d = os.path.join(OUT, "replays", pid)
     os.makedirs(d, exist_ok=True)
     path = os.path.join(d, common.digest([v["key"], v["case"]]) + ".json")
     with open(path, "w") as f:
